@@ -6,7 +6,10 @@
 (*   srv[c]      the server (connection) call c is sent over                *)
 (*   out[c][r]   what the server answers for c in round r:                  *)
 (*               "ok" / "fatal" / "later" (retry after back-off) /          *)
-(*               "nsr" (region not serving) / "dead" (connection died)      *)
+(*               "nsr" (region not serving) / "dead" (connection died) /    *)
+(*               "stopped" (this action alone is answered with a            *)
+(*               regionserver-is-stopping exception inside the multi        *)
+(*               response: the other actions keep their own answers)        *)
 (*   reloc[r]    what happens to the calls whose region must be located     *)
 (*               again before round r >= 2 (previous answer "nsr"/"dead"):  *)
 (*               "ok" / "tnf" (the table is gone) / "hang" (the regions     *)
@@ -36,7 +39,7 @@ InitRest ==
   /\ retries = <<>> /\ allOK = TRUE /\ unretry = FALSE /\ needBackoff = FALSE
   /\ returned = FALSE /\ cancelled = FALSE /\ sentLog = <<>> /\ hung = FALSE
 
-WasSent(c, r) == \A q \in 1..(r - 1) : scr.out[c][q] \in {"later", "nsr", "dead"}
+WasSent(c, r) == \A q \in 1..(r - 1) : scr.out[c][q] \in {"later", "nsr", "dead", "stopped"}
 CancelNow(at) == scr.cancel.at = at /\ scr.cancel.round = round
 
 (* findClients: locate every call of the current batch; a lookup error goes to slot `i' of res - the index *)
@@ -47,7 +50,7 @@ Find ==
          \* the region (one per server here) was marked unavailable by any call of the previous round that met
          \* "not serving" or a dead connection: every call to that region now waits for it
          relocating(c) == round > 1 /\ \E d \in Calls : /\ scr.srv[d] = scr.srv[c] /\ d \notin scr.ownCtx /\ WasSent(d, round - 1)
-                                                        /\ scr.out[d][round - 1] \in {"nsr", "dead"}
+                                                        /\ scr.out[d][round - 1] \in {"nsr", "dead", "stopped"}
          outcome(c) == IF ~relocating(c) THEN "ok"   \* (a region that is available needs no waiting: a cancelled context does not matter)
                        ELSE IF scr.reloc[round] = "hang" THEN (IF cnow THEN "ctx" ELSE "hang")
                        ELSE IF scr.reloc[round] = "tnf" THEN "tnf"
@@ -79,9 +82,9 @@ Wait ==
                      ELSE IF scr.srv[c] \in held THEN "ctx"
                      ELSE scr.out[c][round]
          kindOf(o) == CASE o = "ok" -> "ok" [] o = "fatal" -> "fatal" [] o = "later" -> "later" [] o = "nsr" -> "nsr"
-                        [] o = "dead" -> "dead" [] o = "ctx" -> "ctx" [] o = "ownctx" -> "ownctx" [] OTHER -> "hang"
+                        [] o = "dead" -> "dead" [] o = "stopped" -> "dead" [] o = "ctx" -> "ctx" [] o = "ownctx" -> "ownctx" [] OTHER -> "hang"
          stuck == \E i \in 1..Len(batch) : outOf(batch[i]) = "hang"
-         retry == SelectSeq(live, LAMBDA c : outOf(c) \in {"later", "nsr", "dead"})
+         retry == SelectSeq(live, LAMBDA c : outOf(c) \in {"later", "nsr", "dead", "stopped"})
          anyErr == \E i \in 1..Len(batch) : outOf(batch[i]) # "ok"
      IN /\ sentLog' = Append(sentLog, [round |-> round, calls |-> SelectSeq(live, LAMBDA c : ~dropped(c))])
         /\ cancelled' = (cancelled \/ cw)
@@ -122,7 +125,7 @@ ReturnsWhenOwnCtxEnded == ~(pc = "done" /\ hung /\ \A r \in 2..MaxRound : scr.re
 (* C12 *)
 OnlyRetryableResent ==
   \A k \in 2..Len(sentLog) : \A x \in 1..Len(sentLog[k].calls) :
-     scr.out[sentLog[k].calls[x]][sentLog[k].round - 1] \in {"later", "nsr", "dead"}
+     scr.out[sentLog[k].calls[x]][sentLog[k].round - 1] \in {"later", "nsr", "dead", "stopped"}
 NoReexecutionAfterSuccess ==
   \A k \in 1..Len(sentLog) : \A x \in 1..Len(sentLog[k].calls) :
      \A r \in 1..(sentLog[k].round - 1) : scr.out[sentLog[k].calls[x]][r] # "ok"
